@@ -589,7 +589,13 @@ var allFormats = []struct {
 // describeFont renders a font value compactly for witnesses.
 func describeFont(f *type1.Font) string {
 	var sb strings.Builder
-	fmt.Fprintf(&sb, "FontName %q Version %q Notice %q Copyright %q FullName %q FamilyName %q Weight %q\n", f.FontName, f.Version, f.Notice, f.Copyright, f.FullName, f.FamilyName, f.Weight)
+	q := func(s string) string {
+		if len(s) > 400 {
+			return fmt.Sprintf("%q…(%d bytes)", s[:400], len(s))
+		}
+		return fmt.Sprintf("%q", s)
+	}
+	fmt.Fprintf(&sb, "FontName %s Version %s Notice %s Copyright %s FullName %s FamilyName %s Weight %s\n", q(f.FontName), q(f.Version), q(f.Notice), q(f.Copyright), q(f.FullName), q(f.FamilyName), q(f.Weight))
 	fmt.Fprintf(&sb, "ItalicAngle %v FixedPitch %v UPos %v UThick %v Matrix %v Created %v\n", f.ItalicAngle, f.IsFixedPitch, f.UnderlinePosition, f.UnderlineThickness, f.FontMatrix, f.CreationDate)
 	fmt.Fprintf(&sb, "Private %+v\n", *f.Private)
 	if f.Encoding != nil {
